@@ -58,3 +58,15 @@ Theorem C08_recorded_nodes_immutable : forall W M HT can_transfer transfer balan
   preserved (tc (xt s)) (tc (xt s')).
 Proof. exact call_preserves_nodes. Qed.
 Print Assumptions C08_recorded_nodes_immutable.
+
+From Verif Require Import Model.ScriptInst Proofs.Exec_examples.
+(** non-vacuity: a concrete, non-trivial execution meets the premises of the frame theorems above (a top-level CALL with
+    value that stores, CALLs with value through a pre join point into a contract that stores and then halts exceptionally,
+    and stops): it terminates within the fuel, records two nodes, and the failed inner frame leaves no trace in the world *)
+Example C08_premises_met_by_a_concrete_run :
+  exists r s', ex_call true true 50 0 ex_script_A ex_caller ex_A [] 100000 7 ex_state = Some (r, s') /\
+    r_err r = None /\ length (calls (tc (xt s'))) = 2%nat /\
+    s_balance (xw s') ex_A = 7 /\ s_balance (xw s') ex_B = 0 /\
+    aget eq_nn (sw_stor (xw s')) (ex_A, 1) = Some 5 /\ aget eq_nn (sw_stor (xw s')) (ex_B, 2) = None /\
+    (15 <= length (xe s'))%nat.
+Proof. exact ex_top_run. Qed.
